@@ -797,6 +797,7 @@ def run_job(job):
         native = Native(exe) if exe else None
         for chk in job.checks:
             eng = Engine(m, unwind=chk.get("unwind", job.unwind), max_paths=job.max_paths, timeout_ms=job.timeout_ms)
+            eng.recheck_budget = getattr(job, "recheck", 0)
             install_env_stubs(eng)
             if job.setup:
                 job.setup(eng)
@@ -811,6 +812,12 @@ def run_job(job):
                 ctx.inconclusive.append("%s: unsupported: %s" % (ctx.name, e))
             except Exception:
                 ctx.inconclusive.append("%s: internal error: %s" % (ctx.name, traceback.format_exc()[-1500:]))
+            rs = getattr(eng, "recheck_stats", None)
+            if rs:
+                for kk, vv in rs.items():
+                    res.setdefault("cvc5", {"agree": 0, "skipped": 0, "disagree": 0})[kk] += vv
+                if rs["disagree"]:
+                    ctx.inconclusive.append("%s: cvc5 disagrees with z3 on %d verification condition(s)" % (ctx.name, rs["disagree"]))
             res["checks"].append(ctx.result())
             res["insns"] += eng.insn_count
             res["queries"] += eng.queries
